@@ -54,7 +54,9 @@ def r13_1(ctx, R):
                 other_defs_in_loop = [bb for (bb, idx, kind, node) in defs if bb in body and bb not in incs]
                 if incs and inits and not other_defs_in_loop:
                     inc = incs[0]
-                    dom_ok = all(d.dominates(inc, p) for p in inside) and all(d.dominates(inc, t) for t in tails)
+                    # every loop cycle that polls a child passes through the increment (cycles that only skip a vacant,
+                    # stale queue entry consume that entry and need not be counted)
+                    dom_ok = all(not _cycle_avoiding(d, body, head, p, {inc}) for p in inside)
                     # comparison against a constant, exceeding edge leaves the loop
                     exit_tgt = None
                     for sb in body:
@@ -66,7 +68,7 @@ def r13_1(ctx, R):
                                         exceed = lab[2] if lab[1][1] in ("Gt", "Ge", "Eq") else (not lab[2])
                                         if (c == ("multi", l)):
                                             exceed = not exceed if lab[1][1] in ("Gt", "Ge", "Lt", "Le") else exceed
-                                        if exceed and tgt not in body and d.dominates(sb, inside[0]) and d.dominates(inc, sb):
+                                        if exceed and tgt not in body and all(not _cycle_avoiding(d, body, head, p, {sb}) for p in inside):
                                             exit_tgt = (sb, tgt, c[2] if c[0] == "const" else a[2], lab[1][1])
                     if dom_ok and exit_tgt:
                         found = (l, inc, inits[0], exit_tgt)
@@ -105,6 +107,25 @@ def r13_1(ctx, R):
             ctx.ob("R13.1", b, "redrain-loop-only-after-removing-a-source", ok, b.loc(head),
                    "back-edge tails %s; REMOVE sites %s" % (tails, [b.loc(r) for r in rems]))
     ctx.floor("R13.1", "merge-redrain-loops", m, 1)
+
+
+def _cycle_avoiding(d, body, head, poll, avoid):
+    """Is there a cycle head -> poll -> head inside the loop body that avoids the blocks in `avoid`?"""
+    def reach(src, dst):
+        seen = {src}
+        work = [src]
+        while work:
+            x = work.pop()
+            for s_ in d.normal_succ(x):
+                if s_ == dst:
+                    return True
+                if s_ in body and s_ not in seen and s_ not in avoid:
+                    seen.add(s_)
+                    work.append(s_)
+        return False
+    if poll in avoid or head in avoid:
+        return False
+    return (head == poll or reach(head, poll)) and reach(poll, head)
 
 
 def _inc_of_local(e, l):
